@@ -79,58 +79,72 @@ def check_orbit(ctx, label, orb, mu, n_phase, displacement, method, order):
             if not trajs:
                 continue
             sgn = 1.0 if direction == "positive" else -1.0
-            for tr in trajs:
-                S = np.asarray(tr.states, dtype=float)
-                tms = np.asarray(tr.times, dtype=float)
-                seed = S[0]
-                # which base point? nearest reference orbit point among the configured phases
-                dists = [np.linalg.norm(seed - R["dirs"][th][0]) for th in thetas]
-                j = int(np.argmin(dists))
-                base, ds, du = R["dirs"][thetas[j]]
-                dref = ds if stable else du
-                dvec = seed - base
+            runs = [(displacement, trajs)]
+            # history: a second compute() on the SAME object with another displacement (a memo miss) must be just as right
+            if stable == (direction == "positive"):
+                d2 = displacement * 7.0
+                try:
+                    man.compute(step=step, integration_fraction=0.15, displacement=d2, dt=0.01, method=method, order=order,
+                                show_progress=False, energy_tol=energy_tol)
+                    runs.append((d2, man.trajectories))
+                    ctx.count("0:second compute() on the same Manifold object with another displacement")
+                except Exception as exc:
+                    ctx.check(False, "0:manifold computed", {"orbit": label, "stable": stable, "direction": direction, "second_compute": True, "error": repr(exc)[:300]})
+            for (displacement_, trajs_) in runs:
+              for tr in trajs_:
+                  dcur = displacement_
+                  S = np.asarray(tr.states, dtype=float)
+                  tms = np.asarray(tr.times, dtype=float)
+                  seed = S[0]
+                  # which base point? nearest reference orbit point among the configured phases
+                  dists = [np.linalg.norm(seed - R["dirs"][th][0]) for th in thetas]
+                  j = int(np.argmin(dists))
+                  base, ds, du = R["dirs"][thetas[j]]
+                  dref = ds if stable else du
+                  dvec = seed - base
 
-                def wit():
-                    return {"orbit": label, "x0": x0, "period": T, "mu": mu, "branch": tag, "phase_fraction": float(fractions[j]),
-                            "displacement": displacement, "seed": seed, "base_ref": base}
-                # (1) base point on the reference orbit; (2) displacement magnitude in position
-                cond = max(abs(R["lam_u"]), 1.0)
-                pos = np.linalg.norm(dvec[:3])
-                ctx.stat("|pos displacement|/configured - 1", abs(pos / displacement - 1))
-                ctx.check(abs(pos / displacement - 1) <= 1e-3 + 2e-12 * cond / displacement,
-                          "1-2:seed is displaced from an orbit point by the configured distance (position norm)",
-                          lambda: {**wit(), "pos_norm": pos})
-                # (3) direction = true Floquet direction (line), (4) side
-                a = angle(dvec, dref)
-                a_line = min(a, np.pi - a)
-                a_other = angle(dvec, du if stable else ds)
-                a_other = min(a_other, np.pi - a_other)
-                # base-point mismatch (library vs reference orbit point, ~1e-12 x growth) seen from the displaced seed; measured 2e-7 rad
-                tol_ang = 1e-4 + 2e-12 * cond / displacement
-                ctx.stat(f"angle_to_true_direction[{'stable' if stable else 'unstable'}]", a_line)
-                mech = MECH_STABLE if (stable and a_line > tol_ang and 0.02 < a_line < 0.6) else None
-                ok = ctx.check(a_line <= tol_ang, "3:seed offset is along the true Floquet direction of its branch",
-                               lambda: {**wit(), "angle_rad": a_line, "angle_to_other_branch_rad": a_other, "tol": tol_ang}, mech)
-                if ok:
-                    ctx.check((a < np.pi / 2) == (sgn > 0), "4:side matches the requested direction (pivot-positive eigenvector transported along the orbit)",
-                              lambda: {**wit(), "angle_rad": a})
-                    seeds[(stable, direction, j)] = dvec
-                # (5) integration direction and flow
-                if stable:
-                    okt = tms[0] == 0 and np.all(np.diff(tms) < 0)
-                else:
-                    okt = tms[0] == 0 and np.all(np.diff(tms) > 0)
-                ctx.check(okt, "5:stable branches run backward (times decreasing from 0), unstable forward", lambda: {**wit(), "times_head": tms[:4], "t_end": tms[-1]})
-                if okt:
-                    xr = ref.flow(seed, mu, [0.0, tms[len(tms) // 2], tms[-1]])
-                    e = max(np.abs(S[len(tms) // 2] - xr[1]).max(), np.abs(S[-1] - xr[2]).max())
-                    ctx.stat("manifold_traj_err_vs_ref_flow", e)
-                    ctx.check(e <= 1e-6, "5:trajectory is the reference flow of its seed at its signed times", lambda: {**wit(), "err": e})
-                # (6) Jacobi constant
-                C = -2 * ref.energy_many(S, mu)
-                dev = np.max(np.abs(C - C[0])) / abs(C[0])
-                ctx.stat("max_rel_jacobi_deviation", dev)
-                ctx.check(dev <= energy_tol, "6:retained trajectory keeps its seed's Jacobi constant within energy_tol", lambda: {**wit(), "dev": dev})
+                  def wit():
+                      return {"orbit": label, "x0": x0, "period": T, "mu": mu, "branch": tag, "phase_fraction": float(fractions[j]),
+                              "displacement": dcur, "seed": seed, "base_ref": base}
+                  # (1) base point on the reference orbit; (2) displacement magnitude in position
+                  cond = max(abs(R["lam_u"]), 1.0)
+                  pos = np.linalg.norm(dvec[:3])
+                  ctx.stat("|pos displacement|/configured - 1", abs(pos / dcur - 1))
+                  ctx.check(abs(pos / dcur - 1) <= 1e-3 + 2e-12 * cond / dcur,
+                            "1-2:seed is displaced from an orbit point by the configured distance (position norm)",
+                            lambda: {**wit(), "pos_norm": pos})
+                  # (3) direction = true Floquet direction (line), (4) side
+                  a = angle(dvec, dref)
+                  a_line = min(a, np.pi - a)
+                  a_other = angle(dvec, du if stable else ds)
+                  a_other = min(a_other, np.pi - a_other)
+                  # base-point mismatch (library vs reference orbit point, ~1e-12 x growth) seen from the displaced seed; measured 2e-7 rad
+                  tol_ang = 1e-4 + 2e-12 * cond / dcur
+                  ctx.stat(f"angle_to_true_direction[{'stable' if stable else 'unstable'}]", a_line)
+                  mech = MECH_STABLE if (stable and a_line > tol_ang and 0.02 < a_line < 0.6) else None
+                  ok = ctx.check(a_line <= tol_ang, "3:seed offset is along the true Floquet direction of its branch",
+                                 lambda: {**wit(), "angle_rad": a_line, "angle_to_other_branch_rad": a_other, "tol": tol_ang}, mech)
+                  if ok:
+                      ctx.check((a < np.pi / 2) == (sgn > 0), "4:side matches the requested direction (pivot-positive eigenvector transported along the orbit)",
+                                lambda: {**wit(), "angle_rad": a})
+                      if displacement_ == runs[0][0]:
+                          seeds[(stable, direction, j)] = dvec
+                  # (5) integration direction and flow
+                  if stable:
+                      okt = tms[0] == 0 and np.all(np.diff(tms) < 0)
+                  else:
+                      okt = tms[0] == 0 and np.all(np.diff(tms) > 0)
+                  ctx.check(okt, "5:stable branches run backward (times decreasing from 0), unstable forward", lambda: {**wit(), "times_head": tms[:4], "t_end": tms[-1]})
+                  if okt:
+                      xr = ref.flow(seed, mu, [0.0, tms[len(tms) // 2], tms[-1]])
+                      e = max(np.abs(S[len(tms) // 2] - xr[1]).max(), np.abs(S[-1] - xr[2]).max())
+                      ctx.stat("manifold_traj_err_vs_ref_flow", e)
+                      ctx.check(e <= 1e-6, "5:trajectory is the reference flow of its seed at its signed times", lambda: {**wit(), "err": e})
+                  # (6) Jacobi constant
+                  C = -2 * ref.energy_many(S, mu)
+                  dev = np.max(np.abs(C - C[0])) / abs(C[0])
+                  ctx.stat("max_rel_jacobi_deviation", dev)
+                  ctx.check(dev <= energy_tol, "6:retained trajectory keeps its seed's Jacobi constant within energy_tol", lambda: {**wit(), "dev": dev})
     # mirror: negative seeds are the mirror image of positive seeds
     for (stable, direction, j), d in list(seeds.items()):
         if direction == "positive" and (stable, "negative", j) in seeds:
